@@ -1,3 +1,27 @@
-import LocustModel.Proto
-/- Driver stub for C18 (replaced when the property's model is built). -/
-def main : IO Unit := LM.Proto.runDriver fun _ => "?\t?"
+import LocustModel.Store.Proto
+/-
+  Driver for C18.  Input: a history line (see `LocustModel/Store/Proto.lean`) ending with the observed directory
+  listing `L…`, or `LAT <n>` for the ingestion-latency stream.
+  Output:  <model listing + catalogue> TAB <OK | BAD … | SKIP>
+    model: files predicted by the machine model (catalogue file, log segments, partition files) and its catalogue;
+    spec : after a completed flush the listing must be exactly {meta} ∪ files of the catalogue found on disk.
+-/
+namespace LM.DrvC18
+open LM.Proto LM.Store.Drv
+
+def step (line : String) : String :=
+  match splitTokens line with
+  | "LAT" :: _ => "returned\treturned"   -- C18_ingest_enabled_after_freeze: every call is enabled once the freeze ran
+  | _ =>
+  match runLine line with
+  | none => "bad-op\tbad-op"
+  | some (s, ltok) =>
+    let model := listingModel s ++ " " ++ catalogueModel s
+    let spec := match ltok with
+      | some l => if s.lastWasFlush then judgeListing s.lastObs l else "SKIP"
+      | none => "SKIP"
+    model ++ "\t" ++ spec
+
+end LM.DrvC18
+
+def main : IO Unit := LM.Proto.runDriver LM.DrvC18.step
